@@ -34,7 +34,7 @@ LenCoresOf(kind) ==
         : combo \in CombosOf(kind)}
 \* keep the instantiable ones: some length <= MaxC + 2 satisfies every atom on each target
 LenCores ==
-    {c \in UNION {LenCoresOf(kind) : kind \in Kinds \ {"int"}} :
+    {c \in UNION {LenCoresOf(kind) : kind \in Kinds \ ({"int"} \cup StubKinds)} :
         SatisfiableOn(c, "val", MaxC + 2) /\ SatisfiableOn(c, "item", MaxC + 2)}
     \cup {Core("len", kind, <<>>, <<>>, <<>>) : kind \in Kinds}
 
@@ -60,7 +60,7 @@ Firsts ==
     \cup {Cat(<<Lit(92, "esc"), Lit(c, "raw")>>) : c \in {100, 119, 115, 68}}
     \cup {Rep(Cat(<<Lit(92, "esc"), Lit(100, "raw")>>), 1, Inf), Cat(<<La, Lit(92, "esc"), Lit(119, "raw")>>)}
     \* classes that reach the control character DEL (greenery prints it back as an escape)
-    \cup {Rep(CSet(FALSE, <<Rng(32, "x", 127, "X")>>), 1, Inf), Rep(CSet(FALSE, <<Rng(126, "raw", 127, "x")>>), 0, Inf),
+    \cup {Rep(CSet(FALSE, <<Rng(97, "raw", 127, "X")>>), 1, Inf), Rep(CSet(FALSE, <<Rng(126, "raw", 127, "x")>>), 0, Inf),
           Rep(CSet(FALSE, <<One(97, "raw"), One(127, "x")>>), 1, Inf)}
 Seconds ==
     {Rep(Dot, 1, 2), Rep(Dot, 2, 2), Rep(Dot, 0, Inf), Rep(Dot, 1, Inf), Rep(CSet(FALSE, <<Rng(97, "raw", 99, "raw")>>), 1, Inf),
